@@ -963,7 +963,51 @@ def _reader_shape_findings(prog, fns):
                 out.append(('R13', f, i, '%s#stores-normalised-text:%s' % (top.qname, sink[1]),
                             '%s stores text of the element after %s (%s): the writer emits the member as it is, so a value with surrounding blanks / other case that was set '
                             'or received is not what comes back from serialize/parse' % (top.display()[:50], f.cname(n).split('::')[-1] + '()', sink[0])))
+        # R14: a freshly parsed child is kept or dropped by emptiness only
+        parsed = set()
+        for i, n in f.calls():
+            if (f.sym(n) or {}).get('name') in ('parse', 'fromDom') and n.get('obj') is not None:
+                o = f.nodes[f.skip(n['obj'])]
+                if o['k'] == 'var' and o.get('vk') == 'local':
+                    parsed.add(o.get('decl'))
+        for b in f.blocks.values():
+            t = b.get('term')
+            if not parsed or not t or t.get('cond') is None:
+                continue
+            for j in f.walk(t['cond']):
+                m = f.nodes[j]
+                if m['k'] != 'call' or m.get('obj') is None or m.get('op'):
+                    continue
+                o = f.nodes[f.skip(m['obj'])]
+                s_ = f.sym(m) or {}
+                if not (o['k'] == 'var' and o.get('decl') in parsed and s_.get('ret') == 'bool' and s_.get('name') not in ('parse', 'fromDom')):
+                    continue
+                for g in prog.callee_fns(f, m):
+                    if g.entry is None or g.is_lambda:
+                        continue
+                    why = _value_test_in(g)
+                    if why:
+                        out.append(('R14', f, j, '%s#value-filter:%s' % (top.qname, g.qname.split('::')[-1]),
+                                    '%s keeps a parsed child only if %s() holds, and that predicate looks at member values (%s), not just at whether they are empty: a child whose '
+                                    'field holds any other non-blank value is written by the serializer and silently dropped when read back' % (top.display()[:50], g.name, why)))
     return out
+
+
+def _value_test_in(g):
+    """description of a test on member values (beyond emptiness) in a small const predicate, or None"""
+    for i, n in enumerate(g.nodes):
+        bo = g.binop(i)
+        if bo and bo[0] in ('==', '!=', '<', '>', '<=', '>='):
+            sides = [g.nodes[g.skip(x)] for x in bo[1:]]
+            if any(x['k'] == 'mem' or (x['k'] == 'call' and x.get('obj') is not None and g.nodes[g.skip(x['obj'])]['k'] == 'mem' and (g.sym(x) or {}).get('name') not in ('size', 'count', 'length'))
+                   for x in sides) and not all(x['k'] in ('int', 'null', 'bool') or x['k'] == 'mem' and (x.get('tc') or '').startswith(('enum', 'bool', 'int')) for x in sides):
+                if any('QString' in (x.get('t') or '') or x['k'] == 'str' for x in sides):
+                    return g.fmt(i, inline=False)[:60]
+        if n['k'] == 'call' and (g.cname(n) or '') in ('std::find', 'std::find_if', 'std::any_of', 'std::ranges::find', 'QString::contains', 'QString::startsWith', 'QString::endsWith',
+                                                   'QStringList::contains', 'QList::contains', 'std::binary_search', 'QRegularExpression::match', 'QString::compare'):
+            if any(g.nodes[j]['k'] == 'mem' for a in (n.get('args') or []) + ([n['obj']] if n.get('obj') is not None else []) for j in g.walk(a)):
+                return g.fmt(i, inline=False)[:60]
+    return None
 
 
 _NORMALISERS = ('QString::trimmed', 'QString::simplified', 'QString::toLower', 'QString::toUpper', 'QString::toCaseFolded', 'QString::normalized')
@@ -1056,11 +1100,16 @@ def rule_reader_shape(prog, run):
     r11 = run.rule('C01.R11', 'the text-to-integer conversion of a reader is at least as wide as the member it fills (directly, through a local or a same-file helper)', floor=1)
     r13 = run.rule('C01.R13', 'a reader stores the text it read as it is: nothing that went through trimmed() / simplified() / toLower() / toUpper() is assigned to a text member, '
                               'handed to a setter or appended to a member list (normalising for a comparison or an enum conversion is fine)', floor=1)
-    rids = {'R9': r9, 'R10': r10, 'R11': r11, 'R13': r13}
+    r14 = run.rule('C01.R14', 'a child object that was just parsed is kept or dropped by emptiness tests only (blank values are outside the round-trip claim): the validity predicate '
+                              'a reader consults does not compare member values with literals or tables - the serializer emits the child whatever non-blank value the field holds',
+                   floor=1)
+    rids = {'R9': r9, 'R10': r10, 'R11': r11, 'R13': r13, 'R14': r14}
     cpath = os.path.join(build.VERIF, 'controls', 'c01_controls.cpp')
     cprog = facts.Program(build.extract_control(cpath))
     got = {(r, _is_parser(cprog, f)[1].name) for r, f, i, k, m in _reader_shape_findings(cprog, list(cprog.fns.values()))}
-    want = {('R9', 'parseGuardedByOtherAttribute'), ('R10', 'parseOverwritesEntry'), ('R11', 'parseNarrow'), ('R11', 'parseNarrowThroughHelper'), ('R13', 'parseNormalises')}
+    want = {('R9', 'parseGuardedByOtherAttribute'), ('R10', 'parseOverwritesEntry'), ('R11', 'parseNarrow'), ('R11', 'parseNarrowThroughHelper'), ('R13', 'parseNormalises'), ('R14', 'parseFiltersByValue')}
+    if ('R14', 'parseFiltersEmpty') in got:
+        raise AnalysisBroken('C01.R14: the negative control (emptiness filter) is reported')
     if ('R13', 'parseTolerantFlag') in got:
         raise AnalysisBroken('C01.R13: the negative control (normalised text used for a comparison only) is reported')
     if not want <= got:
@@ -1071,7 +1120,7 @@ def rule_reader_shape(prog, run):
     for r, f, i, key, msg in found:
         run.instance(rids[r])
         run.violation(rids[r], key, f.loc(i), msg)
-    for r in ('R9', 'R10', 'R11', 'R13'):
+    for r in ('R9', 'R10', 'R11', 'R13', 'R14'):
         if not any(x[0] == r for x in found):
             run.instance(rids[r])
             run.ok(rids[r], 'src/base', 'none among %d parse functions (the control is reported)' % nparsers)
